@@ -593,6 +593,12 @@ func (q *BufferedChannelQueue[T]) loadFromPool() {
 				break
 			}
 		}
+		if q.pool.Count() > 0 {
+			// Items are still buffered (the channel is full): come back after the
+			// interval even if nobody posts another wake-up, e.g. when the only
+			// consumer is already blocked on GetChannel().
+			q.loadWorkerCh.Offer(1)
+		}
 		q.lock.Unlock()
 
 		time.Sleep(q.loadFromPoolDuration)
